@@ -84,6 +84,12 @@ pool_t::pool_t(const size_t threads)
 
 size_t pool_t::max_size()
 {
+#ifdef NANO_VERIF
+    if (const auto verif_threads = ::nano::verif::g_max_threads.load(); verif_threads != 0U)
+    {
+        return static_cast<size_t>(verif_threads);
+    }
+#endif
     return std::max(size_t(1), static_cast<size_t>(std::thread::hardware_concurrency()));
 }
 
